@@ -410,24 +410,5 @@ def nontrivial(script, obs):
                for op, o in zip(script["ops"], obs))
 
 
-def project_all(script, lines):
-    """Observation function of C12. Error variants collapse to `err`. The model returns the reader unchanged when
-    a read fails, the implementation keeps the decoder state it had reached inside the failed call (the property says
-    nothing about results after an error except that nothing panics): after the first failed read of a script, later
-    observations are compared as panic / no panic only."""
-    out = []
-    dead = False
-    for op, l in zip(script["ops"], lines):
-        k = op.split(" ", 1)[0]
-        if dead and k != "new":
-            out.append("panic" if l == "panic" else "nopanic")
-            continue
-        l2 = collapse(l)
-        out.append(l2)
-        if k in ("read", "raw_read") and l2 == "err":
-            dead = True
-    return out
-
-
 def collapse(line):
     return "err" if line.startswith("err ") or line == "err" else line
